@@ -15,13 +15,20 @@ ASSUMPTIONS = [
     "relational check: after every step the long-lived object is compared with a freshly created object holding the same settings, as symbolic dictionaries, on both sides of every cache-comparison fork (the solver decides old == new and old != new)",
 ]
 BOUNDS = {
-    "quick": "Sampler and QuickSampler on 2-3 mode circuits with symbolic reflectivity / parameter values / brightness; every sequence of 2 reconfigurations out of 12 (reassign circuit, reassign circuit with the same unitary but a different herald photon number, move the herald, move only the output herald, edit the circuit in place, set a circuit Parameter v1->v2, change input, brightness old->new, backend, post-selection reassigned, post-selection object edited in place, detector mode) with a distribution read in between or not; sampling without a prior read; distribution read again after each sampling method with the probability threshold raised to 1e-3 (reaches the renormalising branch of sample_N_inputs through the sum-to-one contract of Generator.choice); Analyzer with and without expected",
+    "quick": "Sampler and QuickSampler on 2-3 mode circuits with symbolic reflectivity / parameter values / brightness; every sequence of 2 reconfigurations out of 13 (reassign circuit, reassign circuit with the same unitary but a different herald photon number, move the herald, move only the output herald, edit the circuit in place, set a circuit Parameter v1->v2, change input, brightness old->new, source purity / indistinguishability edited in place (1,1) -> (17/18, 81/100) -> (1, 81/100), backend, post-selection reassigned, post-selection object edited in place, detector mode) with a distribution read in between or not; sampling without a prior read; distribution read again after each sampling method with the probability threshold raised to 1e-3 (reaches the renormalising branch of sample_N_inputs through the sum-to-one contract of Generator.choice); Analyzer with and without expected",
     "thorough": "sequences of 3 reconfigurations starting with a herald move, herald photon change, parameter set or input change",
 }
-OUTSIDE = "longer histories; purity/indistinguishability changes (covered for fresh objects by C06)"
+OUTSIDE = "longer histories; purity / indistinguishability values other than the three rational settings of the source-quality reconfiguration (fresh objects: C06)"
 STUBS = ["as C07"]
 
-OPS = ["circuit-new", "circuit-same-U-other-herald", "circuit-herald-moved", "circuit-out-herald-moved", "circuit-edit", "param-set", "input", "brightness", "backend", "postselect", "postselect-inplace", "detector-mode"]
+OPS = ["circuit-new", "circuit-same-U-other-herald", "circuit-herald-moved", "circuit-out-herald-moved", "circuit-edit", "param-set", "input", "brightness", "source-quality", "backend", "postselect", "postselect-inplace", "detector-mode"]
+
+
+def _quality(ctx, k):
+    """(purity, indistinguishability) settings the op 'source-quality' cycles through: impure and partly
+    distinguishable, then purity back to exactly one with the indistinguishability still below one, ..."""
+    f = ctx.m.frac
+    return [(1, 1), (f(17, 18), f(81, 100)), (1, f(81, 100)), (f(17, 18), 1)][k % 4]
 
 
 class _Cfg:
@@ -39,6 +46,7 @@ class _Cfg:
         self.extra = []
         self.input = [1, 0]
         self.brightness = 1
+        self.quality = 0  # index into QUALITY: (purity, indistinguishability) of the source
         self.backend = "permanent"
         # the quick sampler holds a PostSelection object from the start (empty:
         # accepts everything) so that it can also be edited in place later
@@ -60,19 +68,23 @@ class _Cfg:
             c.herald(herald_photons, self.herald_mode, self.herald_out)
         return c
 
+    def _source(self):
+        pur, ind = _quality(self.ctx, self.quality)
+        return self.ctx.lw.emulator.Source(brightness=self.brightness, purity=pur, indistinguishability=ind)
+
     def fresh(self):
         lw = self.ctx.lw
         # a brand new circuit object with the current values (no Parameter objects)
         c = self._mk_circuit(self.param.get(), self.herald_photons, self.extra)
         if self.kind == "sampler":
-            return lw.emulator.Sampler(c, lw.State(self.input), source=lw.emulator.Source(brightness=self.brightness), backend=self.backend,
+            return lw.emulator.Sampler(c, lw.State(self.input), source=self._source(), backend=self.backend,
                                        detector=lw.emulator.Detector(photon_counting=self.counting))
         return lw.emulator.QuickSampler(c, lw.State(self.input), photon_counting=self.counting, post_select=self.postselect)
 
     def make(self):
         lw = self.ctx.lw
         if self.kind == "sampler":
-            return lw.emulator.Sampler(self.circuit, lw.State(self.input), source=lw.emulator.Source(brightness=self.brightness), backend=self.backend,
+            return lw.emulator.Sampler(self.circuit, lw.State(self.input), source=self._source(), backend=self.backend,
                                        detector=lw.emulator.Detector(photon_counting=self.counting))
         return lw.emulator.QuickSampler(self.circuit, lw.State(self.input), photon_counting=self.counting, post_select=self.postselect)
 
@@ -114,6 +126,14 @@ class _Cfg:
                 return False
             self.brightness = ctx.real(tag + "nu", 0, 1)
             obj.source.brightness = self.brightness
+        elif op == "source-quality":
+            # in-place edits of the source the sampler already holds, one attribute at a time
+            if self.kind != "sampler":
+                return False
+            self.quality += 1
+            pur, ind = _quality(ctx, self.quality)
+            obj.source.purity = pur
+            obj.source.indistinguishability = ind
         elif op == "backend":
             if self.kind != "sampler":
                 return False
@@ -465,7 +485,7 @@ def harnesses(tier):
     L = 2 if tier == "quick" else 3
     hist = []
     for kind in ("sampler", "quick"):
-        avail = [o for o in OPS if not (kind == "sampler" and o in ("postselect", "postselect-inplace")) and not (kind == "quick" and o in ("brightness", "backend"))]
+        avail = [o for o in OPS if not (kind == "sampler" and o in ("postselect", "postselect-inplace")) and not (kind == "quick" and o in ("brightness", "source-quality", "backend"))]
         firsts = avail if L == 2 else ["circuit-herald-moved", "circuit-same-U-other-herald", "param-set", "input"]
         for ops in itertools.product(avail, repeat=L):
             if ops[0] not in firsts:
